@@ -413,6 +413,12 @@ func polRejects(id int, v any) bool {
 		return ok && n > 5
 	case 5:
 		return true
+	case 6: // no Stacks, in whatever form
+		_, ok := stackage.ConvertStack(v)
+		return ok
+	case 7: // no Conditions
+		_, ok := stackage.ConvertCondition(v)
+		return ok
 	}
 	return false
 }
